@@ -10,7 +10,9 @@ PROP = 'C17'
 MODULE = 'WaveletsVerif.Properties.C17'
 THEOREMS = ['WV.C17.per_refines_circular', 'WV.C17.per_synthesis_is_transpose', 'WV.C17.isometry', 'WV.C17.impl_isometry', 'WV.C17.impl_transpose', 'WV.C02.pr_periodization_even', 'WV.C17.isometry_two_tap', 'WV.C05.corr_convT_adjoint', 'WV.C01.afb1dOne_per_eq_dwt_partial_all', 'WV.C10.sfb1dCh_per_eq_idwt_partial',
             'WV.C17J.wavedec_isometry', 'WV.C17J.DWT1DForward_per_eq_wavedec', 'WV.C17J.DWT1D_isometry',
-            'WV.C17K.iso_W', 'WV.C17K.iso_H', 'WV.C17K.AFB2D_isometry', 'WV.C17K.DWT2D_isometry']
+            'WV.C17K.iso_W', 'WV.C17K.iso_H', 'WV.C17K.AFB2D_isometry', 'WV.C17K.DWT2D_isometry',
+            'WV.C17T.foldCrop2_id', 'WV.C17T.AFB2D_backward_eq_map', 'WV.C17T.SFB2D_forward_per_val', 'WV.C17T.backprop_eq_inverse',
+            'WV.C17T.inverse_is_transpose', 'WV.C17T.DWT2D_inverse_is_transpose']
 OPS = ['afb1d', 'sfb1d', 'AFB1D_bwd', 'DWT1DForward', 'DWT1DInverse', 'DWTForward']
 
 
